@@ -427,13 +427,43 @@ def emit_file(f: File, **kw: Any) -> str:
     return Printer(f, **kw).render()
 
 
-def write_schema(root: File, directory: str, rng: Optional[random.Random] = None, **kw: Any) -> Dict[str, str]:
-    """Write root and all files it imports into `directory`; returns {basename: path}."""
+def compact_text(text: str, rng: random.Random) -> str:
+    """The same token sequence on fewer lines: line breaks are optional in the language (statements may be separated by `;` or by
+    nothing).  Lines that carry a `//` (comments run to the end of the line; also strings that contain the two characters) keep
+    their line break.  Which definition a comment documents may change; no check compares comment text with the model."""
+    out: List[str] = []
+    cur = None
+    for line in text.split("\n"):
+        s = line.strip()
+        if cur is None:
+            cur = line
+            continue
+        if s and "//" not in cur and cur.strip() and rng.random() < 0.7:
+            head = cur.rstrip()
+            if head.endswith(("{", "}", ";")) or s.startswith("}"):
+                sep = " " if not s.startswith("}") or head.endswith(("{", "}", ";")) else rng.choice([" ", "; "])
+            else:
+                sep = rng.choice(["; ", "; ", " ", "  "])
+            cur = head + sep + s
+        else:
+            out.append(cur)
+            cur = line
+    if cur is not None:
+        out.append(cur)
+    return "\n".join(out)
+
+
+def write_schema(root: File, directory: str, rng: Optional[random.Random] = None, compact: float = 0.0, **kw: Any) -> Dict[str, str]:
+    """Write root and all files it imports into `directory`; returns {basename: path}.
+    compact: probability that a file is written in the compact layout (several statements per line; not for checks that use the
+    printer's line/column bookkeeping)."""
     import os
 
     paths: Dict[str, str] = {}
     for g in root.all_files():
         text = Printer(g, rng=rng, abs_root=os.path.abspath(directory), **kw).render()
+        if rng is not None and compact and rng.random() < compact:
+            text = compact_text(text, rng)
         p = os.path.join(directory, g.relpath)
         os.makedirs(os.path.dirname(p), exist_ok=True)
         with open(p, "w") as fh:
